@@ -197,7 +197,7 @@ def timeFields (negative : Bool) (d : Nat) : Nat × Nat × Nat × Nat :=
   let minutes := durationInSeconds / 60 % 60
   let seconds := durationInSeconds % 60
   let microseconds := d % 1000000
-  if negative && decide (microseconds > 0) then
+  if negative = true ∧ microseconds > 0 then
     let seconds := seconds + 1
     let (seconds, minutes) := if seconds = 60 then (0, minutes + 1) else (seconds, minutes)
     let (minutes, hours) := if minutes = 60 then (0, hours + 1) else (minutes, hours)
@@ -409,7 +409,7 @@ def encodeRow : List (ColType × Option Cell) → Except Err (Bytes × List Bool
 
 /-- sign extension of a `w`-byte little-endian integer. -/
 def signExtend (w : Nat) (signed : Bool) (v : Nat) : Int :=
-  if signed && decide (v ≥ 2 ^ (8 * w - 1)) then (v : Int) - (2 : Int) ^ (8 * w) else (v : Int)
+  if signed = true ∧ v ≥ 2 ^ (8 * w - 1) then (v : Int) - (2 : Int) ^ (8 * w) else (v : Int)
 
 def decIntLE (w : Nat) (signed : Bool) (bs : Bytes) : Option (Cell × Bytes) :=
   match readLE w bs with
